@@ -272,6 +272,7 @@ func checkC38(c *Check) {
 	// (timed out / cancelled before sending): the *Request is then back in the pool and owned by another call. Entries of
 	// clientConn.writeQ are therefore only compared or copied, never dereferenced; the query id is read from the entry's
 	// own copy. (Entries moved to the send loop's local queue were confirmed against the call table.)
+	releasedElementsNotHandedOnAgain(c, r)
 	{
 		nq, bad := 0, token.NoPos
 		badFn := ""
@@ -478,4 +479,61 @@ func nodeString(n any) string {
 		return types.ExprString(as.Rhs[0])
 	}
 	return ""
+}
+
+// releasedElementsNotHandedOnAgain: a loop `for i, x := range Q` that releases x (hands it to a release function, which
+// returns it to a pool) must not return Q as a whole from inside the loop — the elements before i have been released and
+// whoever receives Q releases them again; a context released twice sits twice in the pool and two later requests share
+// it (one call's response goes to the other). Returning the rest, Q[i:], is the rule. All functions of pkg/rpc.
+func releasedElementsNotHandedOnAgain(c *Check, r *repoCtx) {
+	const rule = "calls/released-context-not-handed-on-again"
+	for _, name := range sortedKeys(r.funcs) {
+		fi := r.funcs[name]
+		if !strings.HasPrefix(name, "pkg/rpc.") || fi.Decl.Body == nil {
+			continue
+		}
+		ir := r.ir(name)
+		if ir == nil {
+			continue
+		}
+		walkBlock(ir.Body, nil, func(n Node, _ []Guard) {
+			lp, ok := n.(*LoopN)
+			if !ok || lp.Kind != "range" || lp.Over == "" {
+				return
+			}
+			elem := lp.Over + "[*]"
+			releases := false
+			var bad []string
+			walkBlock(lp.Body, nil, func(m Node, _ []Guard) {
+				switch m := m.(type) {
+				case *CallN:
+					nm := m.Builtin
+					if m.Fn != nil {
+						nm = m.Fn.Name()
+					}
+					if strings.Contains(strings.ToLower(nm), "release") {
+						if m.Recv == elem {
+							releases = true
+						}
+						for _, a := range m.Args {
+							if a == elem {
+								releases = true
+							}
+						}
+					}
+				case *ReturnN:
+					for _, v := range m.Vals {
+						if v == lp.Over {
+							bad = append(bad, r.pos(m.Pos))
+						}
+					}
+				}
+			})
+			if !releases {
+				return
+			}
+			c.Ob(rule, strings.TrimPrefix(name, "pkg/rpc.")+"/range "+localNameRx.ReplaceAllString(lp.Over, "$$"), len(bad) == 0, r.pos(lp.Pos), fmt.Sprintf("the loop releases its elements one by one; returns of the whole ranged slice from inside the loop: %v", bad))
+		})
+	}
+	c.Floor(rule, 1)
 }
